@@ -14,7 +14,7 @@ from ..flow import Flow
 
 UTILS = "typhon/files/utils.py"
 ADVERTISED = {"gz": "gzip.GzipFile", "bz2": "bz2.BZ2File", "zip": "zipfile.ZipFile", "xz": "lzma.LZMAFile"}
-EXPECT = {"C12.table": 8, "C12.cleanup": 3, "C12.commit": 2, "C12.passthrough": 2, "C12.zipname": 2, "C12.writer": 2}
+EXPECT = {"C12.table": 8, "C12.cleanup": 3, "C12.commit": 2, "C12.passthrough": 2, "C12.zipname": 3, "C12.writer": 2}
 
 WRITE_EFFECTS = {"remove", "unlink", "rename", "replace", "truncate", "mknod", "makedirs", "mkdir", "move",
                  "copy", "copy2", "copyfile", "rmtree", "touch", "write_text", "write_bytes", "rmdir", "symlink", "link"}
@@ -528,13 +528,23 @@ def rule_zipname(ctx):
         if isinstance(c.func, ast.Attribute) and c.args:
             recv = c.func.value
             if isinstance(recv, ast.Name):
+                nm_ = recv.id
                 recv = dflow.resolve(recv, at=c, depth=2)      # an archive object kept in a temporary
+                if isinstance(recv, ast.Name):
+                    # ... or bound by `with <archive call> as name`
+                    for w_ in walk_no_nested(de.node):
+                        if isinstance(w_, (ast.With, ast.AsyncWith)):
+                            for it_ in w_.items:
+                                if isinstance(it_.optional_vars, ast.Name) and it_.optional_vars.id == nm_ and isinstance(it_.context_expr, ast.Call) \
+                                        and any(c is x for x in ast.walk(w_)):
+                                    recv = it_.context_expr
             if isinstance(recv, ast.Call):
                 member = (c, c.args[0])
     if member is None:
         raise AnalysisError("decompress: member open() of the zip archive not found")
     env2 = {de.params[0]: _Name((True, True, True))}
-    ev2 = _path_eval(de, env2, lambda t: False if t.startswith("not is_compression_format") else None)
+    # (the path on which the expected member is present; a fall-back to the ONLY member of a renamed archive does not change that)
+    ev2 = _path_eval(de, env2, lambda t: False if (t.startswith("not is_compression_format") or (" not in " in t and "len(" in t and "== 1" in t)) else None)
     rv = ev2(member[1])
     want = _Name((False, True, False))
     ctx.ob("compress_as.arcname", wv == want, "member written = %s -> %s" % (norm(arc[1]), _show(wv)),
@@ -543,6 +553,21 @@ def rule_zipname(ctx):
     ctx.ob("decompress.member", rv == want, "member opened = %s -> %s" % (norm(member[1]), _show(rv)),
            "base name of the archive without directory and without the compression suffix (same as written)",
            node=member[0], func=de)
+    # an archive that was RENAMED after it was written (FileSet.move without convert renames the file) keeps the old member name: the
+    # reader falls back to the only member of the archive
+    mname = member[1].id if isinstance(member[1], ast.Name) else None
+    fallback = False
+    if mname is not None:
+        for d_ in dflow.defs(mname, member[0]):
+            if isinstance(d_, ast.Assign):
+                v_ = str(norm(d_.value))
+                src_ = dflow.resolve(d_.value, at=d_, depth=2)
+                if "namelist()" in str(norm(src_)) or "infolist()" in str(norm(src_)):
+                    fallback = True
+    ctx.ob("decompress.renamed_archive", fallback, "member name re-bound from the archive's own list of members: %s" % fallback,
+           "when the expected member is missing and the archive holds exactly one member, that member is read (a .zip moved to another name by FileSet.move was unreadable: "
+           "KeyError, no item named ... in the archive)", node=member[0], func=de,
+           witness=None if fallback else {"written as": "20180101.txt.zip (member 20180101.txt)", "moved to": "2018/001.txt.zip", "read": "KeyError: There is no item named '001.txt' in the archive"})
 
 
 def _show(v):
